@@ -86,6 +86,8 @@ fn idle_lines() -> Vec<&'static str> {
         "DIM H(4294967295,4294967295)", "READ A(1)", "READ A$(1)", "INPUT X", "IF 1 THEN PRINT 1/0", "IF 0 THEN PRINT 1 ELSE RETURN", "PRINT ((1/0))", "9 IF X=0 THEN PRINT (1/X)", "GOTO 9",
         // reads of names nothing was ever stored under
         "PRINT Q$;Q;R$(1)", "Q$=P$",
+        // two loop variables with the same initial letter
+        "FOR I2=1 TO 1", "NEXT I2",
     ]
 }
 
@@ -175,6 +177,17 @@ fn cap_programs(n: usize) -> Vec<(String, Vec<String>, bool)> {
     let mut l: Vec<String> = (1..=n).map(|i| format!("{} GOSUB {}", 10 * i, 10 * (i + 1))).collect();
     l.push(format!("{} PRINT \"deep\"", 10 * (n + 1)));
     v.push((format!("{} nested GOSUBs", n), l, over));
+    // the same nesting through every shape a GOSUB can stand in
+    for (shape, pre, post) in [
+        ("under THEN with an ELSE", "IF 1 THEN ", " ELSE PRINT 0"),
+        ("under ELSE", "IF 0 THEN PRINT 0 ELSE ", ""),
+        ("under THEN", "IF 1 THEN ", ""),
+        ("behind a colon, with a tail", "X=X+1: ", ": Y=Y+1"),
+    ] {
+        let mut l: Vec<String> = (1..=n).map(|i| format!("{} {}GOSUB {}{}", 10 * i, pre, 10 * (i + 1), post)).collect();
+        l.push(format!("{} PRINT \"deep\"", 10 * (n + 1)));
+        v.push((format!("{} nested GOSUBs {}", n, shape), l, over));
+    }
     // n-deep function chain
     let mut l: Vec<String> = (1..=n).map(|i| {
         if i < n { format!("{} DEF Q{}(X)=Q{}(X)+1", i, i, i + 1) } else { format!("{} DEF Q{}(X)=X", i, i) }
